@@ -147,7 +147,14 @@ class Ctx:
             self.res.violation(f"reader-rejects-written-member:{name}:{type(exc).__name__}", f"{rname} rejects what {wname}({_r(v)}) wrote: {exc!r}",
                                {"type": name, "value": _r(v), "bytes": buf.getvalue(), "error": traceback.format_exc()})
             return
-        ok = expect(back) if callable(expect) else (back == v and (not isinstance(v, float) or math.copysign(1, back) == math.copysign(1, v)))
+        if callable(expect):
+            ok = expect(back)
+        elif isinstance(v, datetime.datetime) and isinstance(back, datetime.datetime):
+            # same instant; Python's == is deliberately False between zones for times inside a DST fold (PEP 495), which says
+            # nothing about the value that was read back
+            ok = back.tzinfo is not None and (back - EPOCH) == (v - EPOCH)
+        else:
+            ok = back == v and (not isinstance(v, float) or math.copysign(1, back) == math.copysign(1, v))
         if not ok:
             self.res.violation(f"member-not-read-back:{name}", f"{name} member {_r(v)} reads back as {_r(back)} through {wname}/{rname}",
                                {"type": name, "value": _r(v), "bytes": buf.getvalue(), "read_back": _r(back)})
@@ -315,7 +322,7 @@ def timestamps(c: Ctx, rng, nrand: int, deterministic: bool) -> None:  # noqa: A
 def c12_worker(res: Result, i: int, n: int) -> None:
     c = Ctx(res)
     rng = common.rng_for("C12", i)
-    total = 40000 if res.tier == "quick" else 4000000
+    total = 160000 if res.tier == "quick" else 16000000
     nrand = total // n
     det = i == 0
     for fn, share in ((ints, 0.06), (floats, 0.3), (durations, 0.15), (timestamps, 0.15)):
